@@ -158,6 +158,18 @@ def r2(rr, repo):
     dn = [n for n in ast.walk(w) if isinstance(n, ast.Assign) and any(isinstance(t, ast.Name) and t.id == 'data' for t in n.targets)]
     okd = bool(dn) and isinstance(dn[0].value, ast.IfExp) and U(dn[0].value.test) == 'frame.data' and isinstance(dn[0].value.orelse, ast.Constant) and dn[0].value.orelse.value is None and 'json_dumps(frame.data' in U(dn[0].value.body)
     rr.ob('the data part is json of frame.data, omitted (None) exactly when frame.data is empty', okd, mod, dn[0] if dn else w, key='data-omitted')
+    # every str must survive: json text with ensure_ascii (the default) is pure ASCII, so .encode() cannot fail; with ensure_ascii=False a lone
+    # surrogate (os.fsdecode of a non-UTF-8 file name, a truncated pair) makes .encode() raise and the whole frame set is lost
+    for c in q.calls_in(w):
+        if U(c.func).split('.')[-1] in ('json_dumps', 'dumps'):
+            ea = q.kwarg(c, 'ensure_ascii')
+            par = parent(c)
+            enc = parent(par) if isinstance(par, ast.Attribute) and par.attr == 'encode' else None
+            if ea is not None and not (isinstance(ea, ast.Constant) and ea.value is True):
+                safe = isinstance(enc, ast.Call) and any(isinstance(a, ast.Constant) and a.value in ('surrogatepass', 'surrogateescape', 'backslashreplace') for a in list(enc.args) + [k.value for k in enc.keywords])
+                rr.ob('json text that is not forced to ASCII is encoded with an error handler that cannot raise on lone surrogates', safe, mod, c, witness=U(enc if enc is not None else c)[:160], key='json-ascii')
+            else:
+                rr.holds('frame data is serialised as ASCII-only json before .encode()', mod, c, key='json-ascii')
 
 
 @rule('C09.R3', 'encoding choice: jpg iff (frame.has_jpg when outputs_jpg is None, else outputs_jpg); the jpg branch sends frame.jpg, the raw branch the image buffer itself')
